@@ -53,7 +53,7 @@ def cases(tier, rng):
                 base(kind="perm", ops=ops, exposespawn=rng.random() < 0.5, exposeapp=rng.random() < 0.5)
     for spawnb, appb in ((False, True), (True, False), (False, False)):
         base(kind="perm", spawnb=spawnb, appb=appb, ops=[O("enspawn", "s1"), O("enapp", "a1")] + attempts("spawn") + attempts("app"), exposespawn=True, exposeapp=True)
-    for _ in range(10 if tier == "quick" else 200):
+    for _ in range(10 if tier == "quick" else 2500):
         ops = []
         for _ in range(rng.randint(4, 14)):
             r = rng.random()
